@@ -156,8 +156,18 @@ pub fn run_delivery<M: ZooMsg + ?Sized>(sc: &Scenario, keep_log: bool) -> RunOut
     } else {
         (NSpec::UpTo(8), 2)
     };
-    let plan = Arc::new(make_plan::<M>(&mut dec, &mut stats, nspec, tweak_p));
+    let plan = Arc::new(make_plan_opt::<M>(&mut dec, &mut stats, nspec, tweak_p, !sc.aux.systematic));
     let mut knobs = draw_knobs(if sc.aux.systematic && prop == "C09" { "C07" } else { prop }, sc.world, &mut dec, &plan);
+    if plan.bmode == 2 {
+        // 64 KiB messages: no byte-at-a-time transport (a run would cost 100 000s of steps)
+        if knobs.wchunk_mode == 1 {
+            knobs.wchunk_mode = 2;
+        }
+        if knobs.rchunk_mode == 1 {
+            knobs.rchunk_mode = 2;
+        }
+        knobs.pipe_cap = knobs.pipe_cap.max(64);
+    }
     if sc.aux.systematic {
         // the single forced fault / split is the only disturbance
         knobs.p_pend = 0;
